@@ -5,7 +5,8 @@ The change is applied to /repo and undone straight afterwards."""
 import json, os, re, subprocess, sys, time
 ROOT = "/verif"
 def sh(cmd, cwd=None, timeout=3000):
-    p = subprocess.run(cmd, cwd=cwd, stdout=subprocess.PIPE, stderr=subprocess.STDOUT, text=True, timeout=timeout)
+    p = subprocess.run(cmd, cwd=cwd, stdout=subprocess.PIPE, stderr=subprocess.STDOUT, text=True, timeout=timeout,
+                       env=dict(os.environ, VERIF_NOSHRINK="1"))
     return p.returncode, p.stdout
 def run_check(c):
     t0 = time.time()
@@ -18,7 +19,7 @@ def run_check(c):
             rj = json.load(open(m.group(1)))
             what = rj.get("signature") or (rj.get("broken") or [{}])[0].get("what", "")
     return dict(rc=rc, violation=vio[:1], what=what, wall_s=round(time.time() - t0, 1))
-extra = dict(C10=["C11"], C01=["C18"], C19=["C18"])
+extra = dict(C10=["C11"], C01=["C18", "C05"], C19=["C18"], C07=["C06"])
 for sd in sorted(os.listdir(ROOT + "/seeded")):
     d = os.path.join(ROOT, "seeded", sd)
     pid = sd.split("-")[0]
